@@ -353,6 +353,23 @@ def check_case(ctx, case):
                 else:
                     best = ctx.call("C05.mcc", coll.maximum_sum_of_split_support_tree)
             brt = treechecks.wellformed(ctx, best, "mcc_tree_well_formed", "C05.mcc_wellformed", tag)
+            if route == "treearray":
+                # the returned tree is summarised against the collection (default): every node's support is the
+                # frequency of its split
+                bcl = brt.clusters()
+                for bi in brt.nodes():
+                    a = bcl[bi]
+                    if rooted:
+                        bk = a
+                    else:
+                        bb = full - a
+                        if not a or not bb:
+                            continue
+                        bk = frozenset([a, bb])
+                    wantb = float(freqs.get(bk, 0))
+                    gotb = getattr(brt.obj[bi], "support", None)
+                    ctx.check(gotb == wantb, "mcc_tree_node_support_is_split_frequency", "C05.mcc_support:" + variant,
+                              lambda: "%s tree %s node over %s: support %r want %r; %s" % (variant, brt.canon(), fmt(bk), gotb, wantb, tag))
             mx = max(scores)
             argmax = [j for j, s in enumerate(scores) if s == mx]
             bkeys = samples.tree_keys(brt, rooted)
